@@ -271,3 +271,59 @@ def parse_spec_models(line):
     if line.startswith("ERR"):
         raise RuntimeError("telspec: " + line)
     return sorted(tuple(sorted(m.split())) for m in line.split("|"))
+
+# --------------------------------------------------------------------------- reading s-expressions back
+
+def parse_sexp(s):
+    """inverse of `sexp` for the driver outputs: nested lists of strings"""
+    i, n = 0, len(s)
+    stack = [[]]
+    while i < n:
+        c = s[i]
+        if c in " \t\n\r":
+            i += 1
+        elif c == "(":
+            stack.append([]); i += 1
+        elif c == ")":
+            top = stack.pop(); stack[-1].append(top); i += 1
+        elif c == '"':
+            i += 1; buf = []
+            while s[i] != '"':
+                if s[i] == "\\":
+                    i += 1
+                buf.append(s[i]); i += 1
+            i += 1
+            stack[-1].append("".join(buf))
+        else:
+            j = i
+            while j < n and s[j] not in ' \t\n\r()"':
+                j += 1
+            stack[-1].append(s[i:j]); i = j
+    if len(stack) != 1 or len(stack[0]) != 1:
+        raise ValueError("bad s-expression: " + s[:200])
+    return stack[0][0]
+
+def dump_tterm(t):
+    """clingo.TheoryTerm -> tuple form understood by `telmodel` (decTTerm)"""
+    import clingo
+    T = clingo.TheoryTermType
+    if t.type == T.Number:
+        return ("n", t.number)
+    if t.type == T.Symbol:
+        return ("s", QStr(t.name))
+    if t.type == T.Function:
+        return ("f", QStr(t.name)) + tuple(dump_tterm(a) for a in t.arguments)
+    tag = {T.Tuple: "t", T.List: "l", T.Set: "c"}[t.type]
+    return (tag,) + tuple(dump_tterm(a) for a in t.arguments)
+
+class QStr(str):
+    """a string that `sexp` always quotes"""
+    pass
+
+_old_sexp = sexp
+def sexp(o):  # noqa: F811
+    if isinstance(o, QStr):
+        return '"' + o.replace("\\", "\\\\").replace('"', '\\"') + '"'
+    if isinstance(o, (tuple, list)):
+        return "(" + " ".join(sexp(x) for x in o) + ")"
+    return _old_sexp(o)
